@@ -89,6 +89,8 @@ def main():
     ap.add_argument("--replay")
     ap.add_argument("--selftest-env", action="store_true")
     ap.add_argument("--no-lean", action="store_true", help="development: skip the Lean stage")
+    ap.add_argument("--ignore-known", action="store_true",
+                    help="development: drop violations of committed known-finding families (to see what else a mutant triggers)")
     a = ap.parse_args()
     if a.selftest_env:
         env.boot()
@@ -146,6 +148,8 @@ def main():
         k = next((f for f in known if f["property"] == pid and v["family"] is not None
                   and f["family"] == v["family"]), None)
         if k is not None:
+            if a.ignore_known:
+                continue
             if k["family"] not in printed_known:
                 printed_known.add(k["family"])
                 print("KNOWN-FINDING: property=%s %s" % (pid, k["what"]))
